@@ -152,7 +152,8 @@ class Grammar:
     def max_len(self, cap=40):
         """for finite languages: the longest word length (<= cap)"""
         best = -1
-        for w in self.words(cap):
+        sub = Grammar(self.useful_prods(), self.start)     # finite language => every useful variable is finite
+        for w in sub.words(cap):
             best = max(best, len(w))
         return best
 
